@@ -13,6 +13,7 @@ from robotools.evotools.types import Tip
 from robotools.evotools.utils import get_well_position
 from robotools.worklists.base import BaseWorklist
 from robotools.worklists.utils import (
+    materialize_tip,
     optimize_partition_by,
     partition_by_column,
     partition_volume,
@@ -256,6 +257,7 @@ class EvoWorklist(BaseWorklist):
             Most prominent example: `liquid_class`.
             Take a look at `Worklist.aspirate_well` for the full list of options.
         """
+        kwargs = materialize_tip(kwargs)
         # reformat the convenience parameters
         source_wells = np.array(source_wells).flatten("F")
         destination_wells = np.array(destination_wells).flatten("F")
